@@ -59,8 +59,10 @@ sim_plan("C01", ["timer", "dag"], miri_parts=["timer"])
 LEVEL["C03"] = "exploration"
 RULES["C03"] = ("generated DAG benches (plain/map/filter_map connections to models and sinks, capacities 1-3 and 1-16, messages from models, scheduler, "
                 "process_event/process_query/EventSource/QuerySource); per-command multiset of (recipient, uid) handler invocations and sink contents compared with the "
-                "reference interpreter; non-trivial = deliveries compared while at least one sender was suspended on a full mailbox or a sink was written")
-sim_plan("C03", ["dag", "roomy"], miri_parts=["dag"], tsan_parts=["dag"])
+                "reference interpreter; part stream: 4000 broadcasts per step through capacity 1-2 mailboxes on 2-8 worker threads (see C02), per-sink sequence numbers make loss, duplication and reordering visible; "
+                "non-trivial = deliveries compared while at least one sender was suspended on a full mailbox or a sink was written / stream case")
+sim_plan("C03", ["dag", "roomy", "stream"], miri_parts=["dag"], tsan_parts=["dag"])
+PLAN["C03"]["thorough"] += [miri("stream", 4, 8, 3000), job("tsan", "stream", 8, 1800, args=["--scale", "0.02"])]
 LEVEL["C04"] = "exploration"
 RULES["C04"] = ("generated deadlock-free benches on ST / controlled ST / MT 2-16 threads with delays focused in turn on every executor protocol site; "
                 "at every Ok return no handler or port operation is open and no model event lies outside a call; per-command invocation multisets equal the "
@@ -178,8 +180,11 @@ LEVEL["C02"] = "exploration"
 RULES["C02"] = ("generated DAG benches (diamonds, chains through intermediate models, queries in the chain; mailbox capacities 1-3 with suspended senders, and 1-16) on ST, schedule-controlled ST "
                 "(seeded task picks and cooperative yields before every channel push) and MT 2-16 threads with delays at channel probes; a happens-before graph is built from the log (program order of each "
                 "model, send -> processing, replier end -> query completion) and, for every two sends to one recipient where the first completed happens-before the second began, the recipient must "
-                "process them in that order; non-trivial = execution containing at least one such pair issued by two different models (a chain); distinct = (bench, handler order, pick sequence) hash")
-sim_plan("C02", ["dag", "roomy", "mt"], miri_parts=["dag"], tsan_parts=["mt"])
+                "process them in that order; part stream: a source sends M1(i) through one Output to 2-3 sinks and then an event to a relay that sends M3(i) to the same sinks, 4000 times per step, through capacity 1-2 mailboxes "
+                "(both recipients of a broadcast full at the same time) with a noise source, on 2-8 worker threads: each sink must process M1(i) before M3(i), both in increasing i, each exactly once; "
+                "non-trivial = execution containing at least one such pair issued by two different models (a chain); distinct = (bench, handler order, pick sequence) hash / stream case")
+sim_plan("C02", ["dag", "roomy", "mt", "stream"], miri_parts=["dag"], tsan_parts=["mt"])
+PLAN["C02"]["thorough"] += [miri("stream", 4, 8, 3000), job("tsan", "stream", 8, 1800, args=["--scale", "0.02"])]
 PLAN["C02"]["assumptions"] = COMMON_ASSUMPTIONS + ["only the happens-before edges listed in the statement are used (program order, send->delivery, reply); deliveries of one broadcast are not ordered among themselves",
                                                   "the oracle is exercised on every run by exchanging two causally ordered invocations in copies of real logs (coverage.counters.oracle_selftest_*)"]
 
@@ -205,13 +210,15 @@ RULES["C14"] = ("replies: generated DAG benches with Requestor queries (0-3 conn
                 "gates: askers query 2-6 repliers (plain/map/filter_map connections, the same replier possibly connected twice, capacity 1-4 mailboxes, a QuerySource action in the same step) whose handlers block on harness "
                 "gates that a conductor model opens in a scripted random order interleaved with spurious wake-ups of the blocked replier tasks and cooperative yields, while the asker's task wakes itself after Pending polls so "
                 "that the broadcast future is re-polled with no sub-future scheduled; oracle: reply sequence = connection list (order, filters, maps), completion stamped after the end of every contributing replier handler, one "
-                "handler run per accepting connection, step() returns Ok; "
+                "handler run per accepting connection, step() returns Ok; storm: askers issue 3000 consecutive queries per step to 2-4 jittered repliers on 2-8 worker threads (narrow cross-thread windows of the broadcast future "
+                "and task set are crossed thousands of times per run), every reply sequence compared, every query must complete before step() returns Ok; "
                 "clones: random sequences of clone / connect / map_connect / filter_map_connect on harness-held clones (and clones of clones) of an Output and a Requestor whose sibling clone lives "
                 "inside a model of a running simulation (ST, MT2, MT4), interleaved with events and queries sent by the model; reference model = one shared connection list; "
                 "non-trivial = execution with more than one reply compared (replies) / gated query with several repliers, distinct by (case, executor, completion orders) (gates) / sequence with a connection made through a harness-held clone followed by a send or query (clones)")
-PLAN["C14"] = {"quick": [job("native", "replies", 16, 600), job("native", "gates", 16, 600), job("native", "clones", 16, 600), miri("replies", 2, 4, 900), miri("gates", 2, 4, 900)],
+PLAN["C14"] = {"quick": [job("native", "replies", 16, 600), job("native", "gates", 16, 600), job("native", "storm", 16, 600), job("native", "clones", 16, 600), miri("replies", 2, 4, 900), miri("gates", 2, 4, 900)],
                "thorough": [job("native", "replies", 16, 3000), job("native", "gates", 16, 3000), job("native", "clones", 16, 3000), miri("replies", 8, 16, 3000), miri("gates", 8, 16, 3000),
-                            miri("clones", 2, 4, 3000), job("tsan", "replies", 8, 1800, args=["--scale", "0.05"]), job("tsan", "gates", 8, 1800, args=["--scale", "0.05"])],
+                            miri("clones", 2, 4, 3000), job("native", "storm", 16, 3000), miri("storm", 4, 8, 3000), job("tsan", "replies", 8, 1800, args=["--scale", "0.05"]), job("tsan", "gates", 8, 1800, args=["--scale", "0.05"]),
+                            job("tsan", "storm", 8, 1800, args=["--scale", "0.02"])],
                "min_evaluations": {"quick": 500, "thorough": 500},
                "assumptions": COMMON_ASSUMPTIONS + ["connections through clones are made between driver calls (connect takes &mut self on the harness' clone; concurrent connects while a step runs are not generated)",
                                                    "part gates: wakers are only invoked from handler code (executor threads), every gate is eventually opened whatever the schedule, so a stall is a violation"]}
